@@ -34,7 +34,7 @@ BOUNDARY = {
     'Dirichlet': [dict(n_iter=0), dict(n_iter=40)],
     'DiffusionClassifier': [dict(n_iter=0), dict(n_iter=1, centering=False)],
     'count_cliques[3]': [dict(clique_size=2), dict(clique_size=7)],
-    'color_weisfeiler_lehman': [dict(max_iter=1), dict(max_iter=0)],
+    'color_weisfeiler_lehman': [dict(max_iter=1), dict(max_iter=0), dict(max_iter=2), dict(max_iter=3)],
     'Spectral': [dict(n_components=1), dict(n_components=3, decomposition='laplacian')],
     'SVD': [dict(n_components=1)],
     'Spring': [dict(n_iter=0), dict(n_iter=60, approx_radius=0.5)],
